@@ -100,7 +100,11 @@ func execC08(t *testing.T, sc *kernel.Scenario, trace bool) *kernel.Result {
 				if k >= 0 && len(p.chans) > before {
 					opens = append(opens, openRec{id: p.ids[k], pn: st.Int("pn"), an: st.Int("an"), sideProposer: side, alloc: p.lastAlloc})
 					checkOpened(p, k, side, p.lastAlloc, p.lastData, st)
-				} else if e := p.lastOpenErr; e != nil && strings.Contains(e.Error(), "channel already exists") {
+				} else if e := p.lastOpenErr; e != nil && !strings.Contains(e.Error(), "channel already exists") {
+					// both sides are honest, delivery is reliable and every context is far
+					// longer than all delays: an accepted proposal must open the channel
+					s.Fail("C08.honest-opening-failed", "an honest ledger channel opening failed under a fault-free schedule: %v", e)
+				} else if e != nil {
 					// the derived ID collided with an existing channel: only legitimate
 					// if an earlier opening used the same proposer and the same two nonce shares
 					same := false
@@ -123,8 +127,16 @@ func execC08(t *testing.T, sc *kernel.Scenario, trace bool) *kernel.Result {
 					if len(p.subs) > before {
 						si := p.subs[len(p.subs)-1]
 						checkOpenedPair(p, si.chans[0], si.chans[1], "sub")
-					} else if p.chans[0][0].Idx() != 0 {
-						// proposer was H itself
+					} else {
+						p.mu.Lock()
+						var last *opRec
+						if n := len(p.ops); n > 0 && p.ops[n-1].op == "sub-open" && p.ops[n-1].step == i {
+							last = p.ops[n-1]
+						}
+						p.mu.Unlock()
+						if last != nil && last.err != nil && !strings.Contains(last.err.Error(), "channel already exists") {
+							s.Fail("C08.honest-opening-failed@sub", "an honest sub-channel opening failed under a fault-free schedule: %v", last.err)
+						}
 					}
 				}
 			case "mut":
